@@ -232,10 +232,15 @@ def case_seasons(mon, lo, hi):
 
 def case_season_refusals(mon):
     from pymeeus.Sun import Sun
-    for y in (-1001, 3001, -10000, 10000, -2000, 4000):
+    # (ints have no upper limit: a year beyond the range of a float is
+    # still "another year")
+    for y in (-1001, 3001, -10000, 10000, -2000, 4000, 10 ** 18, -10 ** 30,
+              10 ** 309, -10 ** 400):
         for s in ("spring", "winter"):
             mon.evals += 1
-            mon.cls("season-refusal-probe", ("refuse", y, s), [y, s])
+            mon.cls("season-refusal-probe", ("refuse", y, s),
+                    [y if abs(y) < 10 ** 18 else "%s10**%d" % (
+                        "-" if y < 0 else "", len(str(abs(y))) - 1), s])
             try:
                 r = Sun.get_equinox_solstice(y, rt(s))
             except ValueError:
